@@ -6,7 +6,7 @@ package main
 //
 // Oracle (reference predicate, written from the property statement; never calls the repository's decision functions):
 //   a callback attempt is (receiving instance R, state string S, presented cookie list CL).
-//   n(S)   = the nonce part of S as R is configured to read it (plain "nonce:redirect", or strict unpadded base64url of it)
+//   n(S)   = the nonce part of S (plain "nonce:redirect", or strict unpadded base64url of it)
 //   L      = the login started on an instance of the same proxy (same cookie secret) whose state nonce is n(S), if any
 //   may    = L exists  &&  CL contains L's CSRF cookie byte-for-byte under the name the proxy gave it when L was started
 //   must   = may && S is L's state verbatim && R is the instance that started L && CL holds exactly one cookie of that name
@@ -286,13 +286,20 @@ func (cs *c03Case) reference(R *c03Inst, state *string, cookies [][2]string) (L 
 	if state == nil {
 		return nil, false, false
 	}
-	n, _, ok := c03SplitState(*state, R.Encoded)
-	if !ok || n == "" {
-		return nil, false, false
+	// the login is identified by the nonce the state carries; a state that carries it in the other encoding than R is
+	// configured for is still "that login's nonce" (accepting it would not break the binding), it merely is not verbatim
+	for _, enc := range []bool{R.Encoded, !R.Encoded} {
+		n, _, ok := c03SplitState(*state, enc)
+		if !ok || n == "" {
+			continue
+		}
+		cs.mu.Lock()
+		L = cs.byKey[R.Secret+"|"+n]
+		cs.mu.Unlock()
+		if L != nil {
+			break
+		}
 	}
-	cs.mu.Lock()
-	L = cs.byKey[R.Secret+"|"+n]
-	cs.mu.Unlock()
 	if L == nil {
 		return nil, false, false
 	}
